@@ -1408,6 +1408,20 @@ pub fn configs(prop: SProp, tier: Tier) -> Vec<SCfg> {
         }
         SProp::C04 => {
             let alpha = S_CANCEL | S_CANCEL_UNKNOWN | S_FINISH | S_DRAIN;
+            // a request whose deadline lies beyond the timers' range (3 years, 10 years - the "no
+            // deadline" idiom) is cancelled like any other (seeded change C04k armed no timer for it
+            // and then failed to abort it on cancellation)
+            for far_days in [1100i64, 3650] {
+                for route in [Route::Requests, Route::Execute] {
+                    for n in 1..=2usize {
+                        let mut reqs: Vec<ReqCfg> = (0..n as u64).map(|i| ReqCfg::simple(i, false)).collect();
+                        reqs[n - 1].deadline_ms = far_days * 86_400_000;
+                        let mut c = base(reqs, None, 1, Flavour::Always, 1, alpha);
+                        c.route = route;
+                        out.push(c);
+                    }
+                }
+            }
             // the sink (one slot, not drained) and the response buffer (one slot) are full of finished
             // responses when the cancellation of a third, running request arrives: it is read and
             // acted on all the same (seeded change C04i / C06g stopped reading while the response
@@ -1781,6 +1795,16 @@ pub fn configs(prop: SProp, tier: Tier) -> Vec<SCfg> {
                                     out.push(c);
                                 }
                             }
+                        }
+                    }
+                    // a handler panics (the executor contains the panic and drops the task, as
+                    // tokio::spawn does): its slot is given back like any other (seeded change C12k /
+                    // C11k skipped the guard's notice while the thread is unwinding)
+                    if (1..=2).contains(&l) && *cap == 1 {
+                        for rb in [1usize, 2] {
+                            let mut rs: Vec<ReqCfg> = (0..(l as u64 + 2)).map(|i| ReqCfg::simple(i, true)).collect();
+                            rs[0].hk = HKind::Panic;
+                            out.push(base(rs, Some(l), rb, *fl, *cap, alpha));
                         }
                     }
                     // the write of a refusal fails once (the application logs the error and keeps
